@@ -135,6 +135,32 @@ func init() {
 		Stub: []string{"network (simnet)", "scripted peers (independent protocol implementation)", "users", "clock"},
 		Rule: "one run = real frps with an honest client and 2-5 authenticated scripted peers sending every message type with extreme field values (negative/huge numbers, empty/very long/non-UTF-8 strings, nil maps, malformed addresses) concurrently with user probes, visitor and NAT-hole traffic; plus race-detector builds of this and the lifecycle worlds, whose reports are classified by accessed object (map operation / channel close in frp server or pkg code); any frp panic or fatal error in any world counts; distinct = distinct event-log hash",
 	})
+	reg(&propSpec{ID: "C02", Level: "exploration",
+		Batches: []batchSpec{
+			{Name: "fault-free", World: "http", Weight: 6},
+			{Name: "fault-free-l2", World: "http", Weight: 2, Park: 0.002, Gos: 0.01},
+		},
+		Stub: []string{"network (simnet)", "raw HTTP/1.1 users", "recording HTTP/1.1 backend", "clock"},
+		Rule: "one run = real frps + real frpc with an http proxy (drawn Host rewrite, request/response header sets, encryption, compression, bandwidth limit, mux, TLS, pool) and 1-4 keep-alive user connections each sending 1-8 generated requests (methods, percent-encoded paths, queries, multi-valued mixed-case headers, content-length and chunked bodies) answered by a recording backend with generated responses (status, headers, content-length/chunked/close-delimited bodies); concurrently one request to an unreachable and one to a silent backend; distinct = distinct event-log hash",
+		Assume: []string{"client plugins http2http/http2https/https2http/https2https, WebSocket upgrade and CONNECT through the vhost port are not exercised yet", "the proxy's HTTP client may add 'Accept-Encoding: gzip' when the user sent none; header order across different names is not compared"},
+	})
+	reg(&propSpec{ID: "C06", Level: "exploration",
+		Batches: []batchSpec{
+			{Name: "l1", World: "routes", Weight: 6},
+			{Name: "l2", World: "routes", Weight: 2, Park: 0.005, Gos: 0.02},
+		},
+		Stub: []string{"network (simnet)", "scripted route owners (independent protocol implementation) stamping and recording every request", "raw HTTP / TLS ClientHello / CONNECT users", "clock"},
+		Rule: "one run = seeded history of route registrations (exact hosts, wildcards with >=2 fixed labels, catch-all, nested locations, user-restricted and unrestricted, http/https/tcpmux), acknowledged removals and requests (host case/port/trailing-dot variants, paths, users, origin- and absolute-form, keep-alive reuse, ClientHello SNI, CONNECT) checked against a reference most-specific matcher written from the statement; distinct = distinct event-log hash",
+	})
+	reg(&propSpec{ID: "C07", Level: "exploration",
+		Batches: []batchSpec{
+			{Name: "routes", World: "routes", Weight: 6},
+			{Name: "routes-l2", World: "routes", Weight: 2, Park: 0.005, Gos: 0.02},
+		},
+		Stub: []string{"network (simnet)", "scripted route owners (independent protocol implementation) stamping and recording every request", "raw HTTP / TLS ClientHello / CONNECT users", "clock"},
+		Rule: "same world as C06 with password-protected http and tcpmux routes mixed with unprotected and user-routed ones on the same hosts; request shapes: origin-form and absolute-form targets, Authorization / Proxy-Authorization in any casing, right, wrong, missing and foreign credentials; oracle: a protected route's backend saw a request only if the request carried exactly its credentials; distinct = distinct event-log hash",
+		Assume: []string{"http_proxy, socks5 and static_file client plugins, the dashboard and the frpc admin API, HTTP/1.0 and h2c request forms are not exercised yet"},
+	})
 	reg(&propSpec{ID: "C10", Level: "fault_enumeration",
 		Batches: []batchSpec{
 			{Name: "cycles", World: "release", Weight: 5},
